@@ -47,7 +47,8 @@ func menu(i int) []*st {
 		{kw: "leaf", arg: n("d"), kids: []*st{{kw: "type", arg: "string"}, {kw: "description", arg: "two words"}, {kw: "default", arg: "x y"}}},
 		{kw: "leaf-list", arg: n("ll"), kids: []*st{{kw: "type", arg: "string"}}},
 		{kw: "list", arg: n("li"), kids: []*st{{kw: "key", arg: "k"}, leaf("k")}},
-		{kw: "choice", arg: n("ch"), kids: []*st{{kw: "case", arg: "ca", kids: []*st{leaf(n("x"))}}, leaf(n("y"))}},
+		// shorthand cases before, between and after an explicit case, and a non-case statement last
+		{kw: "choice", arg: n("ch"), kids: []*st{leaf(n("w")), {kw: "case", arg: "ca", kids: []*st{leaf(n("x"))}}, leaf(n("y")), {kw: "container", arg: n("cz")}, {kw: "description", arg: "two words"}}},
 		{kw: "typedef", arg: n("t"), kids: []*st{{kw: "type", arg: "string"}}},
 		{kw: "grouping", arg: n("g"), kids: []*st{leaf("gl")}},
 		{kw: "m:ext", arg: "an arg", kids: []*st{{kw: "m:sub", noArg: true}}},
